@@ -332,8 +332,25 @@ def check_registered(D: S.Dict, rec: Recorder, seed: int, n: int):
             for mand in (None, True, False):
                 code = 90000000 + i
                 i += 1
+                # a history: the AVP is first seen while still unknown, then registered, then
+                # (for every third definition) first registered with another type and overwritten
+                probe = R.enc_avp(code, vendor or 0, 0x40, b"\x00\x00\x00\x01")
+                before = avpmod.Avp.from_bytes(probe)
+                if type(before) is not avpmod.Avp:
+                    rec.violation(f"C01/register/{tname}/known-before-registration", {"code": code, "vendor": vendor},
+                                  f"decoded as {type(before).__name__} before any registration")
+                if i % 3 == 0:
+                    other = avpmod.AvpOctetString if cls is not avpmod.AvpOctetString else avpmod.AvpUnsigned32
+                    avpmod.register(avp=code, name=f"Verif-Old-{i}", type_cls=other, vendor=vendor, mandatory=mand)
+                    avpmod.Avp.from_bytes(probe)
+                    rec.cls("register:overwrite")
                 avpmod.register(avp=code, name=f"Verif-{tname}-{i}", type_cls=cls,
                                 vendor=vendor, mandatory=mand)
+                rec.cls("register:after-first-decode")
+                after = avpmod.Avp.from_bytes(probe)
+                if type(after) is not cls:
+                    rec.violation(f"C01/register/{tname}/stale-type-after-registration", {"code": code, "vendor": vendor},
+                                  f"(code {code}, vendor {vendor}) decoded as {type(after).__name__} after registering {cls.__name__}")
                 try:
                     Dr = S.Dict()   # sees the new entry
                     S_t = "Integer32" if tname == "Enumerated" else tname
@@ -418,7 +435,7 @@ def run(tier, scale=1.0):
     total_entries = len(D.entries)
     rec.extra["dictionary_entries"] = total_entries
     required = {f"type:{t}": 1 for t in D.by_type} | {f"len%4:{i}": 1 for i in range(4)} | {
-        "origin:registered": 1, "wire:unknown": 1, "wire:vendor-shadow": 1, "time:era1": 1, "time:era0": 1,
+        "origin:registered": 1, "register:after-first-decode": 1, "register:overwrite": 1, "wire:unknown": 1, "wire:vendor-shadow": 1, "time:era1": 1, "time:era0": 1,
         "time:era0-last-hour": 1, "depth:6": 1}
     return finish(rec, tier=tier, level="exploration", rule=RULE, assumptions=ASSUME, t0=t0,
                   exhaustive=False, required_classes=required,
